@@ -150,7 +150,9 @@ def _index(draw, shape):
     if k == "slice":
         a = draw(st.integers(0, n0 - 1))
         b = draw(st.integers(a + 1, n0))
-        step = draw(st.sampled_from([None, None, 2]))
+        step = draw(st.sampled_from([None, None, 2, -1, -2]))
+        if step is not None and step < 0:  # reversed selection (NumPy semantics): from b-1 down to a
+            return {"t": "slice", "v": [b - 1, (a - 1) if a > 0 else None, step]}
         return {"t": "slice", "v": [a, b, step]}
     if k == "iarr":
         idx = draw(st.lists(st.integers(0, n0 - 1), min_size=1, max_size=n0, unique=True))
